@@ -17,11 +17,39 @@ type R struct {
 	c     *smt.Ctx
 	memoF map[int]*smt.Term
 	memoB map[int]*smt.Term
+	ints  map[string]*smt.Term // grid variable name -> its integer twin
+	extra []*smt.Term
+	width map[string]int
 }
 
-func NewR(c *smt.Ctx) *R { return &R{c: c, memoF: map[int]*smt.Term{}, memoB: map[int]*smt.Term{}} }
+func NewR(c *smt.Ctx) *R {
+	return &R{c: c, memoF: map[int]*smt.Term{}, memoB: map[int]*smt.Term{}, ints: map[string]*smt.Term{}, width: map[string]int{}}
+}
 
 func (r *R) TakeAmbig() []*smt.Term { return nil }
+
+// Extra returns the range constraints of the integer twins of grid variables.
+func (r *R) Extra() []*smt.Term { return r.extra }
+
+// FixModel copies the values of the integer twins back to the bit-vector
+// grid variables the harness inputs are made of.
+func (r *R) FixModel(m smt.Model) {
+	for name, iv := range r.ints {
+		if v, ok := m[iv.Name]; ok {
+			w := r.width[name]
+			m[name] = v & ((uint64(1) << uint(w)) - 1)
+		}
+	}
+}
+
+// IntVars lists the integer twins (so that the executor asks for their values).
+func (r *R) IntVars() []*smt.Term {
+	var out []*smt.Term
+	for _, v := range r.ints {
+		out = append(out, v)
+	}
+	return out
+}
 
 func (r *R) Lift(t *smt.Term) (res *smt.Term, err error) {
 	defer func() {
@@ -118,11 +146,34 @@ func (r *R) liftF(t *smt.Term) *smt.Term {
 	case smt.OFGrid:
 		k := t.Args[0]
 		w := k.Sort.W
-		neg := c.SLt(k, c.BVC(w, 0))
-		nat := c.Native("bv2int", smt.Int, k)
-		off := c.Native(fmt.Sprintf("%d", int64(1)<<uint(w)), smt.Int)
-		zero := c.Native("0", smt.Int)
-		si := c.Native("-", smt.Int, nat, c.Ite(neg, off, zero))
+		var si *smt.Term
+		if k.Op == smt.OVar {
+			// an integer twin of the grid variable keeps the query in pure
+			// (nonlinear) real/integer arithmetic
+			iv, ok := r.ints[k.Name]
+			if !ok {
+				// a real twin: the identities claimed hold over the reals, so the
+				// integrality of the grid is not needed (a model is rounded back)
+				iv = c.Var(k.Name+"_real", smt.Real)
+				r.ints[k.Name] = iv
+				r.width[k.Name] = w
+				r.extra = append(r.extra,
+					c.Native("<=", smt.Bool, r.num(-float64(int64(1)<<uint(w-1))), iv),
+					c.Native("<=", smt.Bool, iv, r.num(float64(int64(1)<<uint(w-1)-1))))
+			}
+			v = iv
+			if t.I != 0 {
+				v = c.Native("/", smt.Real, v, r.num(math.Ldexp(1, t.I)))
+			}
+			r.memoF[t.ID] = v
+			return v
+		} else {
+			neg := c.SLt(k, c.BVC(w, 0))
+			nat := c.Native("bv2int", smt.Int, k)
+			off := c.Native(fmt.Sprintf("%d", int64(1)<<uint(w)), smt.Int)
+			zero := c.Native("0", smt.Int)
+			si = c.Native("-", smt.Int, nat, c.Ite(neg, off, zero))
+		}
 		v = c.Native("to_real", smt.Real, si)
 		if t.I != 0 {
 			v = c.Native("/", smt.Real, v, r.num(math.Ldexp(1, t.I)))
@@ -137,6 +188,11 @@ func (r *R) liftF(t *smt.Term) *smt.Term {
 		v = bin("*")
 	case smt.OFDiv:
 		v = bin("/")
+	case smt.OFNextUp:
+		// the nudge is far below the grid spacing: a tiny positive rational
+		v = c.Native("+", smt.Real, r.liftF(t.Args[0]), r.num(math.Ldexp(1, -60)))
+	case smt.OFNextDown:
+		v = c.Native("-", smt.Real, r.liftF(t.Args[0]), r.num(math.Ldexp(1, -60)))
 	case smt.OFNeg:
 		v = c.Native("-", smt.Real, r.liftF(t.Args[0]))
 	case smt.OFAbs:
